@@ -1,5 +1,6 @@
 """C01 - no message is lost or duplicated when an I/O operation fails."""
 import concurrent.futures as cf
+import os
 import random
 import vlib
 import proc
@@ -15,6 +16,10 @@ IGNORED = {
     'fstatat-mtime': 'fstatat for the modification time in maildir_move (mtime not preserved)',
     'cleanup': 'best-effort removal of the stdin spool (readdir/unlinkat/rmdir in maildir_close)',
 }
+
+
+VARIANTS = 12     # thorough tier: scenarios per kind (the corpus scenario and variants of its population / message, tools/sweeplib.py)
+PAIRS = 24        # thorough tier: sampled pairs of faults per scenario
 
 
 def ignored_class(scen_kind, call, clean_calls, k):
@@ -35,17 +40,19 @@ def ignored_class(scen_kind, call, clean_calls, k):
     return None
 
 
-def sweep(tools, W, spec, tier, rng):
-    """Returns list of result dicts for one scenario."""
+def sweep(tools, W, spec, tier, rng, npairs=0):
+    """Returns list of result dicts for one scenario.  npairs: that many sampled PAIRS of faults on top of the single faults, judged
+    for loss-freedom (and followed by the model like every other run)."""
     out = []
     scen = spec.build(tools)
+    base_name = spec.name.split('#')[0]
     try:
         clean = scen.run()
         req, tr, notes = W.request(scen, spec.pats, clean, stdin=(spec.kind == 'stdin'))
         ans = W.verdict([req])[0]
         kind, detail = world.compare(scen, clean, ans)
         out.append({'scenario': spec.name, 'plan': None, 'status': clean.status, 'conform': kind, 'detail': detail, 'ncalls': len(clean.calls()), 'notes': notes})
-        if clean.status != 0 and spec.name != 'stdin-reject':
+        if clean.status != 0 and base_name != 'stdin-reject':
             out[-1]['problem'] = 'fault-free run exits %s: %s' % (clean.status, clean.err[-300:])
             return out
         oracle = ws.TreeOracle(scen.initial, clean.final, stdin=spec.stdin)
@@ -88,9 +95,51 @@ def sweep(tools, W, spec, tier, rng):
                     rec['exit0_class'] = cls or 'unlisted-exit0'
             rec['problems'] = probs
             out.append(rec)
+        # pairs of faults: no loss whatever happens (the exactly-once clauses are about single faults)
+        if npairs:
+            reqs, metas = [], []
+            late = ['EIO', 'ENOSPC', 'ENOENT', 'short']      # the second fault may hit a call the fault-free run does not have (error path)
+            for _ in range(npairs):
+                k1 = rng.randrange(len(calls))
+                k2 = rng.randrange(k1 + 1, len(calls) + 4)
+                e1 = rng.choice(ws.errnos(calls[k1]['name'], tier) or ['EIO'])
+                e2 = rng.choice((ws.errnos(calls[k2]['name'], tier) or ['EIO']) if k2 < len(calls) else late)
+                plan = '%d:%s,%d:%s' % (k1, e1, k2, e2)
+                scen.reset()
+                r = scen.run(fail=plan)
+                nfired = sum(1 for t in r.trace if t['kind'] == 'call' and t.get('fault'))
+                rq, _, nts = W.request(scen, spec.pats, r, stdin=(spec.kind == 'stdin'))
+                reqs.append(rq)
+                metas.append((plan, r, nfired, nts))
+            for (plan, r, nfired, nts), ans in zip(metas, W.verdict(reqs) if reqs else []):
+                kind, detail = world.compare(scen, r, ans)
+                probs = []
+                if r.status not in (0, 1, 75):
+                    probs.append('abnormal exit status %r: %s' % (r.status, r.err[-200:].decode('latin-1')))
+                lost = oracle.no_loss(r.final)
+                if spec.kind == 'stdin' and r.status != 0:
+                    lost = []
+                probs += ['message %d has no intact copy' % i for i in lost]
+                out.append({'scenario': spec.name, 'plan': plan, 'pair': True, 'call': '', 'status': r.status, 'fired': nfired > 0, 'both_fired': nfired > 1,
+                            'conform': kind, 'detail': detail[:400] if kind != 'ok' else '', 'notes': nts, 'problems': probs})
         return out
     finally:
         scen.cleanup()
+
+
+def thorough_job(job):
+    """One scenario variant in a worker process (tools/sweeplib.py): -> compact summary."""
+    import sweeplib
+    spec, seed, npairs = job
+    rng = random.Random('%s/%d' % (spec.name, seed))
+    res = sweep(sweeplib.worker_tools(), sweeplib.worker_world(), spec, 'thorough', rng, npairs)
+    keep = [r for r in res if r.get('problem') or r.get('problems') or r.get('conform') != 'ok' or r.get('exit0_class') or r.get('cond_stat') or r['plan'] is None]
+    summ = {'scenario': spec.name, 'runs': len(res), 'single': sum(1 for r in res if r['plan'] and not r.get('pair')),
+            'single_fired': sum(1 for r in res if r['plan'] and not r.get('pair') and r['fired']),
+            'pairs': sum(1 for r in res if r.get('pair')), 'pairs_both_fired': sum(1 for r in res if r.get('pair') and r.get('both_fired')),
+            'errnos': sorted(set(r['plan'].split(':', 1)[1] for r in res if r['plan'] and not r.get('pair') and r['fired'])),
+            'sample': [r for r in res if r['plan'] and r not in keep][:1]}
+    return summ, keep
 
 
 def run(rep):
@@ -105,9 +154,38 @@ def run(rep):
     ])
     specs = ws.corpus(big=True)
     results = []
-    with cf.ThreadPoolExecutor(min(vlib.NCPU, len(specs))) as ex:
-        for res in ex.map(lambda s: sweep(tools, W, s, rep.tier, rng), specs):
-            results.extend(res)
+    thorough = None
+    if rep.tier == 'thorough':
+        # VARIANTS scenarios per kind, the whole errno table at every call, PAIRS sampled fault pairs per scenario, worker processes
+        import sweeplib
+        nvar = int(os.environ.get('VERIF_C01_VARIANTS', '0')) or VARIANTS
+        npairs = int(os.environ.get('VERIF_C01_PAIRS', '0')) or PAIRS
+        allspecs = [v for s in specs for v in sweeplib.variants(s, nvar, rep.seed)]
+        pool = sweeplib.Pool(tools, sc, 'c01')
+        try:
+            outs = pool.map(thorough_job, [(s, rep.seed, npairs) for s in allspecs], 'C01 fault sweeps',
+                            weight=lambda j: sum(len(d) for d in j[0].tree.values() if isinstance(d, bytes)) + len(j[0].stdin or b''))
+        finally:
+            pool.close()
+        thorough = {'scenarios': len(allspecs), 'variants_per_kind': nvar, 'runs': 0, 'single_fault_runs': 0, 'single_faults_fired': 0,
+                    'fault_pair_runs': 0, 'pairs_in_which_both_faults_fired': 0, 'failures_injected': set(), 'exhaustive_single_faults': True,
+                    'processes': pool.nproc}
+        for summ, keep in outs:
+            results.extend(keep)
+            thorough['runs'] += summ['runs']
+            thorough['single_fault_runs'] += summ['single']
+            thorough['single_faults_fired'] += summ['single_fired']
+            thorough['fault_pair_runs'] += summ['pairs']
+            thorough['pairs_in_which_both_faults_fired'] += summ['pairs_both_fired']
+            thorough['failures_injected'] |= set(summ['errnos'])
+            if len(results) < 100000:
+                results.extend(summ['sample'])
+        thorough['failures_injected'] = sorted(thorough['failures_injected'])
+        specs = allspecs
+    else:
+        with cf.ThreadPoolExecutor(min(vlib.NCPU, len(specs))) as ex:
+            for res in ex.map(lambda s: sweep(tools, W, s, rep.tier, rng), specs):
+                results.extend(res)
     nfault = 0
     fired = 0
     corr_bad = []
@@ -142,8 +220,8 @@ def run(rep):
                        'disagreements': len(corr_bad), 'examples': corr_bad[:8]}, False)
     vlib.lean_conclude(rep)
     rep.coverage.update({
-        'evaluations': len(results),
-        'distinct_nontrivial': fired,
+        'evaluations': thorough['runs'] if thorough else len(results),
+        'distinct_nontrivial': (thorough['single_faults_fired'] + thorough['pairs_in_which_both_faults_fired']) if thorough else fired,
         'rule': '%d scenarios (move, cross-device move, flag, flags, label, add-header, discard, exec, exec stdin, exec stdin body, attachment '
                 'exec, combinations, rules with command / isdirectory / file-time date conditions - evaluated through fork, waitpid, stat inside '
                 'the run -, stdin delivery with/without rewriting, cross-device, discard, reject, with conditions, a stdin message of several I/O '
@@ -154,15 +232,22 @@ def run(rep):
                 'against Model.mainP with the observed results, final directory contents and exit status included; non-trivial = runs in '
                 'which the injected fault fired' % len(specs),
         'samples': [r for r in results if r['plan'] is not None][:3],
-        'fault_runs': nfault, 'faults_fired': fired,
+        'fault_runs': (thorough['single_fault_runs'] + thorough['fault_pair_runs']) if thorough else nfault,
+        'faults_fired': thorough['single_faults_fired'] if thorough else fired,
         'exit0_despite_fault': exit0,
         'correspondence_mismatches': len(corr_bad),
         'calls_per_scenario': {r['scenario']: r['ncalls'] for r in results if r['plan'] is None and 'ncalls' in r},
     })
+    if thorough:
+        rep.coverage['thorough'] = dict(thorough, what='%d scenarios per kind (the corpus scenario and variants: other populations in new and cur, X-Label / folded '
+                                        'headers / flags in names, a message of several stdio buffers, the first generated name already taken in every '
+                                        'directory, messages of one stdio buffer +-1; stdin: sizes around the read buffer and several buffers); for every '
+                                        'scenario EVERY call index x EVERY failure of its row of the fault table (exhaustive), and %d sampled pairs of '
+                                        'faults judged for loss-freedom; every run followed call by call by Model.mainP' % (thorough['variants_per_kind'], PAIRS))
     rep.coverage['isdirectory_stat_faults_judged_by_model'] = sum(1 for r in results if r.get('cond_stat'))
-    rep.assumptions += ['single faults; identity sources pinned by the shim; a fault on the stat(2) of an `isdirectory` condition makes '
-                        'the condition false (documented meaning): those runs are judged by the world model and exactly-once, not by '
-                        'the place the fault-free run reaches']
+    rep.assumptions += ['single faults (thorough tier, pairs of faults: loss-freedom only); identity sources pinned by the shim; a fault on the '
+                        'stat(2) of an `isdirectory` condition makes the condition false (documented meaning): those runs are judged by the world '
+                        'model and exactly-once, not by the place the fault-free run reaches']
 
 
 def replay(rep, path):
@@ -171,6 +256,10 @@ def replay(rep, path):
     sc = vlib.Scratch()
     tools = proc.Tools(sc)
     spec = [s for s in ws.corpus(big=True) if s.name == j.get('scenario')]
+    if not spec and '#' in (j.get('scenario') or ''):
+        import sweeplib
+        base = [s for s in ws.corpus(big=True) if s.name == j['scenario'].split('#')[0]]
+        spec = [v for s in base for v in sweeplib.variants(s, VARIANTS, j.get('seed', 1)) if v.name == j['scenario']]
     vlib.lean_gate(rep, 'C01', sc, [])
     if spec:
         scen = spec[0].build(tools)
